@@ -4,6 +4,7 @@
 //! One file per topic; every module line below is pre-declared so that owners only touch their file.
 
 pub mod arith;
+pub mod containers;
 pub mod dvipos;
 pub mod expand;
 pub mod fontarith;
